@@ -1293,6 +1293,331 @@ def rule_single_descent(model):
     return r
 
 
+# --------------------------------------------------------------- R13
+class _BS(BaseState):
+    """Sections of a block tag: which of first / middle / last were
+    compiled, what is known about their number."""
+
+    def __init__(self):
+        self.env = {}              # local -> 'ALL' | 'REST' | 'MID' |
+        #                            'LASTIDX' | 'LEN'
+        self.lo, self.hi = 1, None
+        self.used = frozenset()    # subset of F, M, L
+        self.deleted = False
+        self.dropped = False
+
+    def key(self):
+        return (tuple(sorted(self.env.items())), self.lo, self.hi,
+                self.used, self.deleted, self.dropped)
+
+    def copy(self):
+        n = _BS()
+        n.env = dict(self.env)
+        n.lo, n.hi, n.used = self.lo, self.hi, self.used
+        n.deleted, n.dropped = self.deleted, self.dropped
+        n.trace = self.trace
+        return n
+
+
+class _SectionsDomain(Domain):
+    def __init__(self, blocks):
+        self.blocks = blocks
+
+    # ---- abstract values
+    def lst(self, e, st):
+        """'ALL' / 'REST' / 'MID' for an expression denoting (part of) the
+        section list, else None."""
+        if isinstance(e, ast.Name):
+            if e.id == self.blocks:
+                return 'ALL'
+            v = st.env.get(e.id)
+            return v if v in ('ALL', 'REST', 'MID') else None
+        if isinstance(e, ast.Call) and isinstance(e.func, ast.Name) and \
+                e.func.id in ('enumerate', 'iter', 'list', 'tuple') and \
+                e.args:
+            return self.lst(e.args[0], st)
+        if isinstance(e, ast.Subscript) and isinstance(e.slice, ast.Slice) \
+                and self.lst(e.value, st) == 'ALL' and e.slice.step is None:
+            lo, up = e.slice.lower, e.slice.upper
+            lo_v = 0 if lo is None else (
+                lo.value if isinstance(lo, ast.Constant) else None)
+            if lo_v == 0 and up is None:
+                return 'ALL'
+            if lo_v == 1 and up is None:
+                return 'REST'
+            if lo_v == 1 and self.idx(up, st) == 'LAST':
+                return 'MID'
+        return None
+
+    def idx(self, e, st):
+        """0 / 1 / 'LAST' / None for an index expression."""
+        if isinstance(e, ast.Constant) and isinstance(e.value, int):
+            return {0: 0, 1: 1, -1: 'LAST'}.get(e.value)
+        if isinstance(e, ast.UnaryOp) and isinstance(e.op, ast.USub) and \
+                isinstance(e.operand, ast.Constant) and e.operand.value == 1:
+            return 'LAST'
+        if isinstance(e, ast.Name) and st.env.get(e.id) == 'LASTIDX':
+            return 'LAST'
+        if isinstance(e, ast.BinOp) and isinstance(e.op, ast.Sub) and \
+                self.length(e.left, st) == 'ALL' and isinstance(
+                    e.right, ast.Constant) and e.right.value == 1:
+            return 'LAST'
+        return None
+
+    def length(self, e, st):
+        if isinstance(e, ast.Call) and isinstance(e.func, ast.Name) and \
+                e.func.id == 'len' and len(e.args) == 1:
+            return self.lst(e.args[0], st)
+        if isinstance(e, ast.Name) and st.env.get(e.id) in ('LEN',
+                                                            'LENREST'):
+            return 'ALL' if st.env[e.id] == 'LEN' else 'REST'
+        return None
+
+    # ---- consumption
+    def use(self, st, what):
+        what = set(what)
+        if st.hi == 1:
+            what = {'F', 'M', 'L'} if what & {'F', 'L'} else what
+        if not what <= st.used:
+            st = st.copy()
+            st.used = st.used | frozenset(what)
+        return st
+
+    def element(self, lst, ix, st):
+        """Section classes an element read stands for."""
+        if lst == 'ALL':
+            if ix == 0:
+                return {'F'}
+            if ix == 'LAST':
+                return {'L'}
+            if ix == 1 and st.lo == st.hi == 2:
+                return {'L'}
+        if lst == 'REST':
+            if ix == 'LAST':
+                return {'L'}
+            if ix == 0 and st.lo == st.hi == 2:
+                return {'L'}
+        return set()
+
+    def scan(self, node, st):
+        for x in ast.walk(node):
+            if isinstance(x, ast.Subscript) and isinstance(
+                    x.ctx, ast.Load) and not isinstance(x.slice, ast.Slice):
+                l_ = self.lst(x.value, st)
+                if l_ is None:
+                    continue
+                par = getattr(x, '_dt_parent', None)
+                if isinstance(par, ast.Subscript) and par.value is x and \
+                        isinstance(par.slice, ast.Constant) and \
+                        par.slice.value in (0, 1):
+                    continue          # a look at the tag name / arguments
+                st = self.use(st, self.element(l_, self.idx(x.slice, st),
+                                               st))
+            elif isinstance(x, ast.comprehension):
+                st = self.iterate(x.iter, st)
+        return st
+
+    def iterate(self, it, st):
+        l_ = self.lst(it, st)
+        if l_ == 'ALL':
+            return self.use(st, {'F', 'M'} | (set() if st.deleted
+                                               else {'L'}))
+        if l_ == 'REST':
+            return self.use(st, {'M'} | (set() if st.deleted else {'L'}))
+        if l_ == 'MID':
+            return self.use(st, {'M'})
+        return st
+
+    # ---- hooks
+    def raises(self, node, st):
+        return []
+
+    def loop_head(self, node, st):
+        if isinstance(node, ast.For):
+            return self.iterate(node.iter, st)
+        return st
+
+    def effects(self, stmt, st):
+        st = self.scan(stmt, st)
+        if isinstance(stmt, ast.Delete):
+            for t in stmt.targets:
+                if isinstance(t, ast.Subscript) and \
+                        self.lst(t.value, st) == 'ALL' and \
+                        self.idx(t.slice, st) == 'LAST':
+                    st = st.copy()
+                    if 'L' not in st.used:
+                        st.dropped = True
+                    st.deleted = True
+        if isinstance(stmt, ast.Assign) and len(stmt.targets) == 1:
+            t, v = stmt.targets[0], stmt.value
+            if isinstance(t, ast.Name):
+                st = st.copy()
+                st.env.pop(t.id, None)
+                l_ = self.lst(v, st)
+                if l_ is not None and not (isinstance(v, ast.Subscript) and
+                                           not isinstance(v.slice,
+                                                          ast.Slice)):
+                    st.env[t.id] = l_
+                elif self.idx(v, st) == 'LAST' and not isinstance(
+                        v, (ast.Constant, ast.UnaryOp)):
+                    st.env[t.id] = 'LASTIDX'
+                elif self.length(v, st) == 'ALL':
+                    st.env[t.id] = 'LEN'
+                elif self.length(v, st) == 'REST':
+                    st.env[t.id] = 'LENREST'
+            elif isinstance(t, (ast.Tuple, ast.List)) and \
+                    self.lst(v, st) == 'ALL' and any(
+                        isinstance(e, ast.Starred) for e in t.elts):
+                # first, *rest = blocks
+                st = self.use(st, {'F'}) if not isinstance(
+                    t.elts[0], ast.Starred) else st
+                st = st.copy()
+                for i, e in enumerate(t.elts):
+                    if isinstance(e, ast.Starred) and isinstance(
+                            e.value, ast.Name) and i == 1 and \
+                            len(t.elts) == 2:
+                        st.env[e.value.id] = 'REST'
+        return st
+
+    def on_return(self, node, st):
+        if node.value is not None:
+            st = self.scan(node.value, st)
+        return [], st
+
+    def _narrow(self, st, lo, hi):
+        lo = max(st.lo, lo)
+        hi = st.hi if hi is None else (hi if st.hi is None
+                                       else min(st.hi, hi))
+        if hi is not None and lo > hi:
+            return None
+        n = st.copy()
+        n.lo, n.hi = lo, hi
+        if hi == 1 and n.used & {'F', 'L'}:
+            n.used = frozenset('FML')
+        return n
+
+    def branch(self, test, st):
+        st = self.scan(test, st)
+        # truth of the list itself / of its rest
+        l_ = self.lst(test, st) if isinstance(test, ast.Name) else None
+        off = {'ALL': 0, 'REST': 1}.get(l_)
+        if off is not None:
+            t, f = self._narrow(st, 1 + off, None), \
+                self._narrow(st, 1, off)
+            return [(b, s) for b, s in ((True, t), (False, f))
+                    if s is not None]
+        if isinstance(test, ast.Compare) and len(test.ops) == 1:
+            a, b, op = test.left, test.comparators[0], test.ops[0]
+            la, lb = self.length(a, st), self.length(b, st)
+            if (la is None) != (lb is None):
+                k = b if la is not None else a
+                if isinstance(k, ast.Constant) and isinstance(k.value, int):
+                    which = la or lb
+                    off = {'ALL': 0, 'REST': 1}.get(which)
+                    if off is not None:
+                        if la is None:
+                            op = {ast.Lt: ast.Gt, ast.Gt: ast.Lt,
+                                  ast.LtE: ast.GtE, ast.GtE: ast.LtE}.get(
+                                      type(op), type(op))()
+                        k = k.value + off       # in terms of all sections
+                        rng = {
+                            ast.Eq: ((k, k), None),
+                            ast.NotEq: (None, (k, k)),
+                            ast.Gt: ((k + 1, None), (1, k)),
+                            ast.GtE: ((k, None), (1, k - 1)),
+                            ast.Lt: ((1, k - 1), (k, None)),
+                            ast.LtE: ((1, k), (k + 1, None)),
+                        }.get(type(op))
+                        if rng is not None:
+                            out = []
+                            for bval, rg in ((True, rng[0]),
+                                             (False, rng[1])):
+                                if rg is None:
+                                    out.append((bval, st))
+                                    continue
+                                n = self._narrow(st, max(rg[0], 1), rg[1])
+                                if n is not None:
+                                    out.append((bval, n))
+                            return out
+        return [(True, st), (False, st)]
+
+
+def rule_sections_consumed(model):
+    r = RuleResult('C06.R13', 'a block tag compiles or rejects every '
+                   'section the parser collected for it (the opening '
+                   'section and each continuation): on no path through its '
+                   'constructor that returns normally is a section left '
+                   'unread -- a continuation that is silently dropped is '
+                   'malformed or meaningful source accepted without a '
+                   'ParseError and never rendered')
+    mi = model.inlined_view()
+    n = 0
+    for ci in mi.all_classes():
+        bc = ci.attrs.get('blockContinuations')
+        if bc is None:
+            continue
+        ok, val = mi.fold(bc, None, ci.module)
+        if not ok or not val:
+            continue
+        init = ci.methods.get('__init__')
+        if init is None and '__call__' in ci.methods:
+            # a factory object registered as the command: the class it
+            # instantiates with the sections
+            fc = ci.methods['__call__']
+            fp = fc.params()[1] if len(fc.params()) > 1 else None
+            for c in own_nodes(fc.node):
+                if isinstance(c, ast.Call) and c.args and isinstance(
+                        c.args[0], ast.Name) and c.args[0].id == fp:
+                    for t in mi.resolve_callee(c.func, fc):
+                        if t[0] == 'class' and '__init__' in t[1].methods:
+                            init = t[1].methods['__init__']
+        if init is None or len(init.params()) < 2:
+            continue
+        blocks = init.params()[1]
+        dom = _SectionsDomain(blocks)
+        it = Interp(dom, max_states=60000)
+        outs = it.run(init.node, _BS())
+        if it.overflow:
+            raise AnalysisError(f'C06.R13: state budget in {init.where}')
+        ends = [o for o in outs if o.kind in ('normal', 'return')]
+        bad = []
+        for o in ends:
+            s_ = o.state
+            missing = []
+            if 'F' not in s_.used:
+                missing.append('the opening section')
+            if 'M' not in s_.used and not (s_.hi is not None and s_.hi <= 2):
+                missing.append('the continuations between the first and '
+                               'the last')
+            if 'L' not in s_.used and not s_.hi == 1:
+                missing.append('the last continuation')
+            if s_.dropped:
+                missing.append('a continuation deleted before it was read')
+            if missing:
+                bad.append((o, missing))
+        n += 1
+        r.instance(init.where, f'{ci.name}({blocks})',
+                   f'{len(ends)} normal exit(s), {len(bad)} leaving a '
+                   'section unread', continuations=list(val))
+        seen = set()
+        for o, missing in bad:
+            key = tuple(missing)
+            if key in seen:
+                continue
+            seen.add(key)
+            r.finding(init.where, f'{ci.name}: ' + '; '.join(missing),
+                      f'a path through the constructor of dtml-{ci.name.lower()} '
+                      'returns without having compiled or rejected '
+                      + ' and '.join(missing) + ': what the author wrote '
+                      'there is accepted and silently never rendered',
+                      node=init.node, ctx=init, path=o.state.trace)
+    if n < 3:
+        raise AnalysisError(f'C06.R13: only {n} block tags with '
+                            'continuations found (expected if, in, try)')
+    r.floor = 3
+    return r
+
+
 def _needs_registry(rule):
     """Everything except R6 depends on a resolvable tag registry."""
     def run(model):
@@ -1308,7 +1633,7 @@ def _needs_registry(rule):
 RULES = [rule_registry] + [_needs_registry(r_) for r_ in (
     rule_regex, rule_raise, rule_partial, rule_location, rule_recursion,
     rule_prefix_grammar, rule_block_context, rule_tag_resolution,
-    rule_single_descent)]
+    rule_single_descent)] + [rule_sections_consumed]
 EXPLANATION = (
     'Regex automata (EDA criterion on the self-product of the pattern NFA) '
     'for every constant pattern of the compile phase; raise/handler '
